@@ -113,8 +113,8 @@ class Type:
         if self.kind == "enum":
             return ("enum", self.ref["id"])
         if self.kind in ("cstr", "str"):
-            return (self.kind,)
-        return ("obj", self.ref["id"], "ptr" if self.mode in (3, 4) else "val")
+            return ("str",)          # const char * and std::string map to the same binding-level string type
+        return ("obj", self.ref["id"])   # value / reference / pointer forms all become a pointer at binding level
 
     def category(self):
         """Python type category (C02)"""
